@@ -286,6 +286,8 @@ func leanOfGoName(p *pkg, g string) (string, bool) {
 		return "Int", true
 	case "byte", "uint8":
 		return "UInt8", true
+	case "error":
+		return "(Option GoErr)", true // an error VALUE held in a variable (nil = none); results of type error stay GoM outcomes
 	}
 	if strings.HasPrefix(g, "[]") {
 		in, ok := leanOfGoName(p, g[2:])
@@ -486,6 +488,16 @@ func balanced(s string) bool {
 	return d == 0
 }
 
+// scoped is mon() for a computation that must keep its nested actions to itself (the second operand of && / ||: they
+// must not run before the first operand has decided): a `do` of its own
+func (e ex) scoped() string {
+	m := e.mon()
+	if !e.pure && strings.Contains(m, "(← ") && !strings.HasPrefix(m, "(do ") {
+		return "(do " + m + ")"
+	}
+	return m
+}
+
 func impure(code string, t ty) ex { return ex{"(← " + code + ")", false, t} }
 
 func bytesLit(s string) string {
@@ -675,7 +687,7 @@ func (f *fn) binary(x *ast.BinaryExpr) ex {
 		if a.pure && b.pure {
 			return ex{"(" + a.code + " " + op + " " + b.code + ")", true, boolTy}
 		}
-		return impure("("+g+" "+a.val()+" "+b.mon()+")", boolTy)
+		return impure("("+g+" "+a.val()+" "+b.scoped()+")", boolTy)
 	}
 	// nil comparisons of pointers
 	if x.Op == token.EQL || x.Op == token.NEQ {
@@ -825,6 +837,19 @@ func (f *fn) call(x *ast.CallExpr) ex {
 		}
 		fail(x.Pos(), "make other than make(T, 0, cap) or an ordered builder")
 	}
+	if name == "errors.Join" && len(x.Args) == 2 {
+		// errs = errors.Join(errs, <a new error>): the accumulated error is non-nil afterwards (which one is reported first is
+		// the joined error's business; the model keeps the first)
+		a := f.expr(x.Args[0])
+		if a.t.lean != "(Option GoErr)" {
+			fail(x.Pos(), "errors.Join on %s", a.t.lean)
+		}
+		n, prop := f.errName(x.Args[1])
+		if prop {
+			fail(x.Pos(), "errors.Join with the variable err")
+		}
+		return ex{fmt.Sprintf("(joinErr %s (.err %q))", a.code, n), a.pure, a.t}
+	}
 	if id, ok := x.Fun.(*ast.Ident); ok {
 		if v, isVar := f.lookup(id.Name); isVar && strings.HasPrefix(v.t.gon, "func\x00") {
 			parts := strings.SplitN(v.t.gon, "\x00", 3)
@@ -891,7 +916,7 @@ func (f *fn) call(x *ast.CallExpr) ex {
 				return f.callTarget(tg, &r, x.Args, x.Pos())
 			}
 			// a trivial getter of a modelled struct
-			if st := structFor(g); st != nil && len(x.Args) == 0 {
+			if st := structFor(g); st != nil && len(x.Args) == 0 && (concreteTypes[g] || typeTable[g] == "") {
 				sp, err := loadPkg(st.dir)
 				if err == nil {
 					if fd := sp.funcDecl(tname, sel.Sel.Name); fd != nil {
@@ -1138,6 +1163,15 @@ func (f *fn) retStmt(o *w, rs *ast.ReturnStmt) {
 	case "error":
 		if len(rs.Results) != 1 {
 			fail(rs.Pos(), "return arity")
+		}
+		if id, isId := rs.Results[0].(*ast.Ident); isId && !isNilIdent(rs.Results[0]) {
+			if v, isVar := f.lookup(id.Name); isVar && v.t.lean == "(Option GoErr)" {
+				// return errs: nil is success, anything else is that error
+				o.line("match %s with", v.lean)
+				o.line("| none => %s", wrap("()"))
+				o.line("| some e => throw e")
+				return
+			}
 		}
 		if isNilIdent(rs.Results[0]) {
 			o.line("%s", wrap("()"))
@@ -1489,7 +1523,7 @@ func (f *fn) stmt(o *w, st ast.Stmt) {
 					if !ok {
 						fail(vs.Pos(), "type of var %s", n.Name)
 					}
-					zero := map[string]string{"Int": "(0 : Int)", "Bool": "false", "Bytes": "([] : Bytes)", "UInt8": "(0 : UInt8)"}[t.lean]
+					zero := map[string]string{"Int": "(0 : Int)", "Bool": "false", "Bytes": "([] : Bytes)", "UInt8": "(0 : UInt8)", "(Option GoErr)": "none"}[t.lean]
 					if n := arrayLenOf(t.gon); n >= 0 {
 						zero = fmt.Sprintf("(List.replicate %d (0 : UInt8))", n)
 					}
@@ -2009,6 +2043,11 @@ func translate(tg *target) (text string, err error) {
 	fd := p.funcDecl(tg.Recv, tg.Name)
 	if fd == nil || fd.Body == nil {
 		return "", fmt.Errorf("function not found")
+	}
+	if tg.InlineClosures {
+		cp := *fd
+		cp.Body = inlineClosures(fd.Body)
+		fd = &cp
 	}
 	if tg.StructLocal != "" {
 		// scalar replacement of the struct-typed local (structlocal.go): the translation sees the rewritten body
